@@ -164,11 +164,48 @@ def claims_retention(wf_status: int, other_status: int) -> bool:
             w.close()
 
 
+def claims_retention_owner(wf_status: int, stage_status: int, kind: bool) -> bool:
+    """
+    post: _
+    """
+    # A claim of a live execution must survive the retention sweep as long as it still excludes
+    # someone: a decided deferred choice stays decided after its winner finished; a mutex stays while
+    # its holder is unfinished.
+    with hx.Path("claims_retention_owner") as P:
+        ws = ST[hx.pick(wf_status, 12)]
+        ss = ST[hx.pick(stage_status, 12)]
+        choice = hx.decide(kind)
+        w = world2.SWorld(name="reto")
+        try:
+            holder = StageExecution(ref_id="h", name="h", type="x", status=ss)
+            other = StageExecution(ref_id="o", name="o", type="x")
+            wf = Workflow(application="a", name="w", stages=[holder, other], status=ws)
+            w.store.store(wf)
+            key = "choice:g" if choice else "mutex:k"
+            with hx.native():
+                w.db.tables["stage_claims"].append({"execution_id": wf.id, "claim_key": key, "stage_id": holder.id, "claimed_at": symdb.Iso(0)})
+            n = w.store.cleanup_completed_stage_claims()
+            left = [r["claim_key"] for r in w.table("stage_claims")]
+            with hx.native():
+                P.reached((ws.name, ss.name, choice))
+                info = {"execution": ws.name, "holder_stage": ss.name, "claim": key, "swept": n}
+            if ws.name in FINAL:
+                if left:
+                    return P.fail("C11/retention/claim_of_finished_execution_kept", info)
+            elif left != [key] and (choice or ss.name not in FINAL):
+                # (a mutex whose holder has finished may be released by anyone: no second stage can run beside it)
+                return P.fail("C11/retention/claim_of_live_execution_swept/%s" % ("choice" if choice else "mutex"), info)
+            return True
+        finally:
+            w.close()
+
+
 PLAN = [
     ("acquire_claim_step", "quick", 280),
     ("mutex_pair", "quick", 200),
     ("choice_pair", "quick", 200),
     ("claims_retention", "quick", 200),
+    ("claims_retention_owner", "quick", 280),
 ]
 
 META = {
